@@ -64,6 +64,18 @@ func c16NumberProducers(n int) []c16Producer {
 	}
 	if n >= 0 {
 		ps = append(ps, c16Producer{"abs", BI("abs", "-"+N), "", ""})
+		// numbers obtained from numeric-looking strings ("coerced" producers).  Whether a
+		// string is accepted here at all is not pinned by the properties, so these are
+		// used only when the producer itself evaluates to the number (checked at run time).
+		q := `"` + fmt.Sprint(n) + `"`
+		ps = append(ps,
+			c16Producer{"coerced-round", BI("round", q), "", ""}, c16Producer{"coerced-abs", BI("abs", q), "", ""},
+			c16Producer{"coerced-max", BI("max", q), "", ""}, c16Producer{"coerced-min-array", BI("min", "["+q+"]"), "", ""},
+			c16Producer{"coerced-pow", BI("pow", q, "1"), "", ""}, c16Producer{"coerced-multiply", "(" + q + " * 1)", "", ""},
+			c16Producer{"coerced-minus", "(" + q + " - 0)", "", ""}, c16Producer{"coerced-bitor", "(" + q + " | 0)", "", ""},
+			c16Producer{"coerced-round-concat", BI("round", `("" + `+fmt.Sprint(n)+`)`), "", ""},
+			c16Producer{"coerced-bangla", BI("round", `"`+BanglaDigits(fmt.Sprint(n), nil)+`"`), "", ""},
+		)
 	}
 	if n >= 0 && n <= 8 {
 		el := make([]string, n)
@@ -144,6 +156,10 @@ func c16Judge(c *Ctx, cs *Case) {
 	}
 	names := strings.Split(cs.X["producers"], ",")
 	for i, alt := range cs.Alt {
+		if strings.HasPrefix(names[i+1], "coerced-") && !c16CoercionAccepted(c, cs, names[i+1]) {
+			c.Count("coerced_producer_not_applicable", 1)
+			continue
+		}
 		rec, ok := c16Run1(c, alt, stdins[i+1], cli)
 		if !ok {
 			return
@@ -204,6 +220,9 @@ func c16Run(c *Ctx) {
 			stdins := []string{sin}
 			names := []string{v.prods[0].name}
 			for _, p := range v.prods[1:] {
+				if strings.HasPrefix(p.name, "coerced-") {
+					cs.X["expr:"+p.name] = p.expr
+				}
 				a, s2 := build(ctx, p, v.lit)
 				cs.Alt = append(cs.Alt, a)
 				stdins = append(stdins, s2)
@@ -232,4 +251,22 @@ func init() {
 		Judge:       c16Judge,
 		MustCount:   func(c *Ctx) []string { return []string{"pairs_compared", "contexts_value", "contexts_fault", "producer:string:input", "producer:string:concat", "producer:number:bitwise-or", "producer:number:len", "producer:number:round", "cli_runs"} },
 	})
+}
+
+var c16CoerceMemo = map[string]bool{}
+
+// c16CoercionAccepted: does this implementation accept the numeric-looking
+// string in the producer at all (the producer alone prints without a fault)?
+func c16CoercionAccepted(c *Ctx, cs *Case, name string) bool {
+	expr := cs.X["expr:"+name]
+	if expr == "" {
+		return false
+	}
+	if v, ok := c16CoerceMemo[expr]; ok {
+		return v
+	}
+	o := RunLib(Print(expr)+"\n", RunOpts{MaxSteps: 10000})
+	ok := o.Panic == "" && o.Exit == 0 && o.Stderr == ""
+	c16CoerceMemo[expr] = ok
+	return ok
 }
